@@ -29,7 +29,7 @@ from pathlib import Path
 
 VERIF = Path(__file__).resolve().parent.parent
 LEAN_DIR = VERIF / "lean"
-EVIDENCE_DIR = VERIF / "evidence"
+EVIDENCE_DIR = Path(os.environ.get("VERIF_EVIDENCE_DIR", str(VERIF / "evidence")))
 REPLAY_DIR = VERIF / "replays"
 CORPUS_DIR = VERIF / "corpus"
 KNOWN_FILE = VERIF / "known_findings.txt"
